@@ -149,6 +149,10 @@ def _is_mul_of(v, count_s, elem_ty=None):
     v = strip(v)
     if not isinstance(v, tuple):
         return False
+    # `a.checked_mul(b).unwrap_or(usize::MAX)` is the saturating product
+    if v[0] == 'call' and v[1] == 'unwrap_or' and len(v[3]) == 2 and isinstance(strip(v[3][0]), tuple) and strip(v[3][0])[0] == 'call' and \
+            strip(v[3][0])[1] == 'checked_mul' and sym.vstr(strip(v[3][1])).startswith('MAX='):
+        v = strip(v[3][0])
     ops = None
     if v[0] == 'call' and v[1] in ('saturating_mul', 'checked_mul', 'wrapping_mul'):
         if v[1] == 'wrapping_mul':
